@@ -12,6 +12,10 @@ CHECKS = {
    technique="exhaustive input enumeration: all token sequences <= 4/5 over a 45-lexeme alphabet (valid or not) and all byte strings <= 4, x 4 parser modes, error-contract oracle + reflective tree walk + all compiler configurations",
    text="Every token sequence up to the bound (malformed ones included) and every short byte string is parsed by the real parser in all four mode combinations; the error contract (no panic, err iff errors, no nil entries in statement lists, error ranges are token ranges, error-free trees complete and compilable in every configuration) is checked on each. Complete within the bound, so every early-return path of every sub-parser reachable with <= n tokens is driven.",
    note="trusted: reflective walker and token-range collection (props/xjs.go, props/c11.go); worker watchdog turns hangs/OOM into violations; bounded length"),
+ "C02": dict(cat="exploration", sec="4 C02",
+   technique="exhaustive input enumeration: all token sequences <= 4/5 over a 45-lexeme alphabet x all {space,LF} layouts + single-gap deviations, differential against the goja ECMAScript parser (tree-shape comparison)",
+   text="Every token sequence up to the bound in every space/line-feed layout (plus single deviations to other gap kinds) that the reference ECMAScript parser accepts as a subset-only program is parsed by xjs; acceptance and tree shape (statement structure, precedence, associativity, ASI boundaries) must coincide. Complete small scope: every subset program of <= n tokens over the alphabet is compared, which is what precedence/ASI table edits cannot escape.",
+   note="trusted: goja parser + AST-to-shape mapping (xmc/ref/shape.go); domain restrictions D1-D5; one lexeme per literal kind, two identifiers"),
  "C09": dict(cat="model_checking", sec="4 C09",
    technique="explicit-state exploration: all builder call histories <= depth 5/6 (stateless) + BFS with abstract-state dedup to depth 7/9, real SourceMapper vs list model, independent VLQ decoder",
    text="Every operation history up to the bound over a 25-call alphabet is executed on the real builder in lock-step with a reference model and the emitted mappings are decoded by an independent Source Map v3 decoder; every VLQ delta in [-2^20,2^20] is encoded through the public API and decoded. Exhaustive within the bound, which is where delta-reset, name carry-over and continuation-bit bugs live.",
